@@ -13,7 +13,7 @@ PROPS["C08"] = dict(
              require=["threads.2", "threads.3", "threads.4", "overlapping-calls", "class.prepare.exists", "class.remove.ok"]),
     ],
     rule="random histories (6-28 calls) of Prepare(with/without target)/View/Commit/Mounts/Remove/Cleanup/Update/Stat/Close over 8 names "
-         "and a growing parent graph, sync or async removal, each call carrying the scripted results of the backend Mount/Check/Unmount; "
+         "and a growing parent graph (incl. remote chains of 6-10 layers with the Check of one layer, at any depth, failing; the recording backend holds every Check until all Checks of the call have arrived), sync or async removal, each call carrying the scripted results of the backend Mount/Check/Unmount; "
          "non-trivial = at least one successful remote mount, one live unmount and >= 4 op kinds; distinct = distinct (config, ops, outputs)",
     assumptions=[
         "bolt transactions are atomic and serialised (one writer); sequential theorems take whole calls as ops, the concurrent theorems "
